@@ -70,9 +70,12 @@ def record_histories(ns, seeds, n_edits, out, kinds=None):
                 k = ev["edit"][0] + (":" + ev["edit"][3] if ev["edit"][0] == "listop" else "")
                 actions[k] = actions.get(k, 0) + 1
                 out.nontrivial.add((seed, ev["seq"]))
+            elif ev["ev"] == "Refused":
+                actions["refused"] = actions.get("refused", 0) + 1
+                out.nontrivial.add((seed, ev["seq"]))
             elif ev["ev"] == "Raised":
                 raised.append({"seed": seed, "seq": ev["seq"], "edit": ev["edit"], "exc": ev["exc"], "msg": ev["msg"]})
-        events += [dict(ev, seed=seed) for ev in h.events if ev["ev"] in ("Create", "Update")]
+        events += [dict(ev, seed=seed) for ev in h.events if ev["ev"] in ("Create", "Update", "Refused")]
     return events, shapes, actions, raised
 
 
@@ -249,7 +252,7 @@ def run(tier, out):
                                                 {"JFN": MODEL_FLAGS["JFN"], "CANON": MODEL_FLAGS["CANON"]})
         out.add_tlc(res, "Trace_Update on recorded histories")
         out.traces += sum(1 for e in events if e["ev"] == "Create")
-        out.evaluations += sum(1 for e in events if e["ev"] == "Update")
+        out.evaluations += sum(1 for e in events if e["ev"] in ("Update", "Refused"))
         judge(out, events, fails)
         for ev in events:
             if ev["ev"] == "Update" and not ev.get("links_ok", True):
@@ -296,9 +299,10 @@ def replay(path, out):
     ns = efx.load()
     seed, seq = detail["seed"], detail["seq"]
     events, *_ = record_histories(ns, [seed], seq, out)
-    last = [e for e in events if e["ev"] == "Update"][-1]
-    print(json.dumps({"edit": last["edit"], "stale_vs_rebuild": last["stale"]}, indent=1))
-    if last["stale"]:
-        out.violation("replay:stale-vs-rebuild", {"seed": seed, "seq": seq, "stale": last["stale"]})
+    last = [e for e in events if e["ev"] in ("Update", "Refused")][-1]
+    print(json.dumps({"edit": last["edit"], "accepted": last["ev"] == "Update", "stale_vs_rebuild": last["stale"]}, indent=1))
+    if last["stale"] or (last["ev"] == "Refused" and last["changed"]):
+        out.violation("replay:stale-vs-rebuild", {"seed": seed, "seq": seq, "stale": last["stale"],
+                                                  "changed_by_refused_edit": last["changed"] if last["ev"] == "Refused" else []})
     out.evaluations = len(events)
     out.nontrivial |= {(seed, i) for i in range(len(events))}
